@@ -29,6 +29,7 @@ pub fn single(name: &str, cfg: Scenario, ack: bool, size: u64, dev: usize) -> DS
         bursts: false,
         default_cfg: None,
         src_symlink: false,
+        empty_dst: false,
     }
 }
 
@@ -127,6 +128,15 @@ pub fn quick_conformance(ack: bool, closure: bool) -> Conf {
         // destination daemon (its routing, not the transaction, decides what happens then)
         v.push(single(&format!("conf {} size=0", cfg.class()), cfg, ack, 0, 2));
     }
+    {
+        // filestore requests in the Put: the daemon, not the transaction, puts them into the metadata
+        let mut rq = cfg_base("conf");
+        rq.ack = ack;
+        rq.closure = closure;
+        rq.requests = vec![(0, "new1".into(), "".into()), (3, "log1".into(), "log2".into()), (3, "log1".into(), "log2".into()), (2, "log2".into(), "log3".into())];
+        rq.pre_files = vec![("log1".into(), "A".into()), ("log2".into(), "B".into())];
+        v.push(single(&format!("conf {} size=17 filestore requests [create,append,append,rename]", rq.class()), rq, ack, 17, 1));
+    }
     if ack && !closure {
         // the source name is a symbolic link: the daemon derives the sizes it announces from it
         let mut l = single(&format!("conf {} size=17 source is a symbolic link", cfg_base("conf").class()), cfg_base("conf"), true, 17, 0);
@@ -134,6 +144,70 @@ pub fn quick_conformance(ack: bool, closure: bool) -> Conf {
         v.push(l);
     }
     run_conformance(v)
+}
+
+/// property-specific real-daemon batches run by the E1 checks in addition to `quick_conformance`:
+/// scenarios in which the daemon's own layer (its task loops, the configuration it hands to a
+/// transaction, what it derives from a Put) decides whether the property holds
+pub fn extra_conformance(id: &str, tier: Tier) -> Vec<DScn> {
+    let dev = tier.pick(2, 3);
+    let mut v = vec![];
+    match id {
+        "C19" => {
+            for side in [Side::S, Side::R] {
+                let mut s = single(&format!("conf ack size=17 suspend/resume@{:?}", side), cfg_base("conf"), true, 17, dev);
+                s.user = vec![(0, side, UserOp::Suspend), (0, side, UserOp::Resume)];
+                s.dups = false;
+                s.overtake = false;
+                v.push(s);
+            }
+            // a delayed gap check falling due while the receiver is suspended
+            let mut i = cfg_base("conf");
+            i.nak_immediate = true;
+            i.nak_delay_s = 5;
+            let mut s = single("conf ack nak=imm5 size=33 suspend/resume@R", i, true, 33, dev);
+            s.user = vec![(0, Side::R, UserOp::Suspend), (0, Side::R, UserOp::Resume)];
+            s.dups = false;
+            s.overtake = false;
+            v.push(s);
+        }
+        "C17" => {
+            // the positive-acknowledgement timeout shorter than the NAK timeout (the usual
+            // configuration has it longer): a timer armed with the other timer's value fires early
+            let mut t = cfg_base("conf");
+            t.t_ack = 40;
+            t.t_nak = 70;
+            let mut s = single("conf ack size=17 timeouts=(300,40,70)", t, true, 17, dev);
+            s.dups = false;
+            s.overtake = false;
+            v.push(s);
+        }
+        "C07" => {
+            let mut g = cfg_base("conf");
+            g.seg = 10;
+            let mut s = single("conf ack seg=10 size=25", g, true, 25, 1);
+            s.dups = false;
+            v.push(s);
+            // a Put that names a source but no destination file
+            let mut e = single("conf unack size=17 empty destination name", { let mut c = cfg_base("conf"); c.ack = false; c }, false, 17, 0);
+            e.empty_dst = true;
+            v.push(e);
+        }
+        "C10" => {
+            for (ack, side) in [(false, Side::S), (true, Side::S), (true, Side::R)] {
+                let mut c = cfg_base("conf");
+                c.ack = ack;
+                let mut s = single(&format!("conf {} size=33 cancel@{:?}", c.class(), side), c, ack, 33, dev);
+                s.user = vec![(0, side, UserOp::Cancel)];
+                s.dups = false;
+                s.overtake = false;
+                s.delay = false;
+                v.push(s);
+            }
+        }
+        _ => {}
+    }
+    v
 }
 
 pub fn c11(args: &Args) -> Report {
@@ -247,6 +321,7 @@ pub fn c11_scenarios(tier: Tier) -> Vec<DScn> {
         bursts: false,
         default_cfg: None,
         src_symlink: false,
+        empty_dst: false,
     };
     v.push(base.clone());
     // per-entity configuration: each daemon holds an entry for its peer (immediate NAK, limit 2);
@@ -280,6 +355,15 @@ pub fn c11_scenarios(tier: Tier) -> Vec<DScn> {
     s.strays = true;
     s.overtake = false;
     v.push(s);
+    // two transactions towards the same entity share one transport slot; the first is suspended
+    // and resumed by its user at any point — the second must not notice
+    let mut sh = base.clone();
+    sh.name = "c11 T1 A->B ack, T3 A->B unack (shared slot) + suspend/resume of T1 at A".into();
+    sh.txns = vec![TxnSpec { from: 0, to: 1, ack: true, size: 33 }, TxnSpec { from: 0, to: 1, ack: false, size: 33 }];
+    sh.user = vec![(0, Side::S, UserOp::Suspend), (0, Side::S, UserOp::Resume)];
+    sh.drops = false;
+    sh.overtake = false;
+    v.push(sh);
     if tier == Tier::Thorough {
         let mut t = base.clone();
         t.name = "c11 three daemons: T1 A->B ack, T2 B->A unack, T3 A->C unack + strays".into();
@@ -295,7 +379,12 @@ pub fn c11_scenarios(tier: Tier) -> Vec<DScn> {
 pub fn dbg(args: &Args) -> Report {
     let name = &args.extra[0];
     let want: Vec<String> = args.extra.get(1).map(|s| s.split(';').map(|x| x.trim().to_string()).filter(|x| !x.is_empty()).collect()).unwrap_or_default();
-    let scn = c11_scenarios(Tier::Thorough).into_iter().chain(conformance_scenarios(Tier::Thorough)).find(|s| &s.name == name).expect("scenario");
+    let scn = c11_scenarios(Tier::Thorough)
+        .into_iter()
+        .chain(conformance_scenarios(Tier::Thorough))
+        .chain(["C19", "C17", "C07", "C10"].into_iter().flat_map(|i| extra_conformance(i, Tier::Thorough)))
+        .find(|s| &s.name == name)
+        .expect("scenario");
     // translate action names into choice indices by running prefixes
     let mut choices: Vec<usize> = vec![];
     for w in &want {
